@@ -97,7 +97,7 @@ def run(ctx):
     n = {'quick': 1500, 'thorough': 100000}[ctx.tier]
 
     def nontrivial(case, fi, fm):
-        return fm.get('n', '0').isdigit() and int(fm.get('n', '0')) > 2 and fm.get('pk', '-') != '-'
+        return fm.get('n', '0').isdigit() and int(fm.get('n', '0')) > 2 and fm.get('pk', '-') not in ('-', 'sa@nil')
 
     def oracle(case, fi, fm):
         if fi.get('_') == 'panic':
@@ -105,6 +105,11 @@ def run(ctx):
         if 'pk' not in fi or 'spec' not in fm:
             return None
         got = [] if fi['pk'] == '-' else fi['pk'].split(',')
+        # the standalone extractor's package is reported but cannot be traced: it must carry no LayerDetails
+        sa = [t for t in got if t.startswith('sa@')]
+        if sa != ['sa@nil']:
+            return 'the package of the standalone extractor is reported as %s; it must be present and carry no LayerDetails' % (sa or 'missing')
+        got = [t for t in got if not t.startswith('sa@')]
         want = dict(t.split('@') for t in ([] if fm['spec'] == '-' else fm['spec'].split(',')))
         if sorted(t.split('@')[0] for t in got) != sorted(want):
             return 'reported packages %s, the final view holds %s' % (fi['pk'], fm['spec'])
@@ -132,7 +137,7 @@ def run(ctx):
 
     def classify(case, fi, fm):
         mode, nf, ls = _layers(case)
-        npk = 0 if fm.get('pk', '-') == '-' else fm['pk'].count(',') + 1
+        npk = 0 if fm.get('pk', '-') == '-' else fm['pk'].count(',')   # without the standalone extractor's package
         unset = fi.get('pk', '').count('@nil')
         return 'mode=%s entries=%d pkgs=%s%s%s%s%s' % (mode, len(ls), npk if npk < 3 else '3+', ' empty-layers' if 'E' in ls else '',
                                                   ' symlink' if any('/s' in l for l in ls) else '', ' ancestor-op' if any('/a' in l or '/r' in l for l in ls) else '',
